@@ -2,14 +2,15 @@
 # Offline setup: parse every specification, build the default flavour of library + driver,
 # anchor the L1 specification on a sample of the reference KAT vectors.
 set -e
-cd /verif
+VR=${VERIF_ROOT:-/verif}
+cd $VR
 mkdir -p .build/tlc evidence
 for f in spec/*.tla; do
   out=$(cd spec && tla-sany $(basename $f) 2>&1) || { echo "$out" | tail -20; echo "SANY failed on $f"; exit 1; }
   if echo "$out" | grep -q "\*\*\* Errors\|Fatal errors\|Could not parse"; then echo "$out" | tail -20; echo "SANY failed on $f"; exit 1; fi
 done
 tools/build.sh rel
-python3 tools/kat2json.py /repo/test/kat .build/kat_setup.ndjson --every 211 --max-len 64 >/dev/null
-( cd spec && KATFILE=/verif/.build/kat_setup.ndjson ../tools/tlc.sh -workers 2 -metadir /verif/.build/tlc/kat_setup -config KatCheck.cfg KatCheck.tla > /verif/.build/kat_setup.out 2>&1 ) || { tail -30 .build/kat_setup.out; echo "KatCheck failed"; exit 1; }
+python3 tools/kat2json.py ${REPO:-/repo}/test/kat .build/kat_setup.ndjson --every 211 --max-len 64 >/dev/null
+( cd spec && KATFILE=$VR/.build/kat_setup.ndjson ../tools/tlc.sh -workers 2 -metadir $VR/.build/tlc/kat_setup -config KatCheck.cfg KatCheck.tla > $VR/.build/kat_setup.out 2>&1 ) || { tail -30 .build/kat_setup.out; echo "KatCheck failed"; exit 1; }
 rm -rf .build/tlc/kat_setup spec/*_TTrace_*
 echo "setup ok"
